@@ -34,7 +34,10 @@ ApplyRoot(root, name) ==
 FileOf(map, si) ==
   IF si >= 0 /\ si < Len(map.sources)
     THEN ApplyRoot(map.root, map.sources[si + 1]) ELSE BadIndex
-HasContent(map, si) == si >= 0 /\ si < Len(map.contents)
+(* sourcesContent cannot express "absent" for one entry among present ones   *)
+(* (absent entries read back as ""), so an empty content counts as none      *)
+HasContent(map, si) ==
+  si >= 0 /\ si < Len(map.contents) /\ map.contents[si + 1] # <<>>
 ContentOf(map, si) == IF HasContent(map, si) THEN map.contents[si + 1] ELSE <<>>
 NameOf(map, ni) ==
   IF ni >= 0 /\ ni < Len(map.names) THEN map.names[ni + 1] ELSE BadIndex
